@@ -147,3 +147,23 @@ Check C09_outside_fast_path_does_not_pin_refuted :
   outs sh0 c1 ops_outside_fast =
   [RIntern 100 0 PCold; RIntern 100 0 PFast; RNewRev; RIntern 100 1 PReuse].
 Print Assumptions C09_outside_fast_path_does_not_pin_refuted.
+
+(* The retention predicates the theorems above are stated over are equal to the kernels
+   translated from /repo/src/interned.rs on this run. *)
+From Salsa.gen Require Import Kernels.
+From Salsa.Intern Require Import RetKGen.
+Theorem C09_kernels_match_source : forall revisions d q r,
+  reusable (revisions =? k_IMMORTAL) d = k_reusable revisions d /\
+  rq_is_primed q = k_rq_is_primed q /\
+  rq_is_stale q r = k_rq_is_stale q r /\
+  (q <> [] -> k_len q < 18446744073709551616 -> rq_record q r = k_rq_record q r).
+Proof.
+  intros. split; [apply reusable_is_translated|]. split; [apply rq_is_primed_is_translated|].
+  split; [apply rq_is_stale_is_translated | apply rq_record_is_translated].
+Qed.
+Check C09_kernels_match_source : forall revisions d q r,
+  reusable (revisions =? k_IMMORTAL) d = k_reusable revisions d /\
+  rq_is_primed q = k_rq_is_primed q /\
+  rq_is_stale q r = k_rq_is_stale q r /\
+  (q <> [] -> k_len q < 18446744073709551616 -> rq_record q r = k_rq_record q r).
+Print Assumptions C09_kernels_match_source.
